@@ -247,7 +247,10 @@ class MetaParserModel:
                             for le in fw.events:
                                 if le.kind == 'let' and le.init is self.closure.node and le.defs:
                                     cname = le.defs[0].name
-                            conds = [c for c in e.ctx if c['k'] == 'if' and c['pol'] and cname and es(c['cond']).replace(' ', '').startswith('!%s(' % cname)]
+                            # `if !handler(p)? { return Err }` or `if handler(p)? { } else { return Err }`
+                            conds = [c for c in e.ctx if c['k'] == 'if' and cname and (
+                                (c['pol'] and es(c['cond']).replace(' ', '').startswith('!%s(' % cname))
+                                or (not c['pol'] and es(c['cond']).replace(' ', '').startswith('%s(' % cname)))]
                             if loops and conds:
                                 info = analyse_iter(loops[-1]['iter'])
                                 # every parameter of the list is handed to the handler: no adaptor on the iteration, and nothing leaves
